@@ -31,8 +31,21 @@ pub struct LineScn {
 	pub slow_user: Vec<usize>,
 }
 
+/// A – {B, C} – D: two two-hop paths between A and D (channels 0: A-B, 1: A-C, 2: B-D, 3: C-D).
+fn diamond_world(ct: Ct) -> (crate::world::World, Vec<lightning::ln::types::ChannelId>) {
+	let mut w = crate::world::World::new((0..4).map(|_| crate::checks::c01::user_config(ct)).collect(), 253);
+	let mut chans = Vec::new();
+	for (a, b) in [(0usize, 1usize), (0, 2), (1, 3), (2, 3)] {
+		chans.push(w.open_channel(a, b, 1_000_000, 400_000_000));
+	}
+	if ct != Ct::Static {
+		w.fund_wallets();
+	}
+	(w, chans)
+}
+
 pub fn build(s: &LineScn, which: &str) -> WorldSys {
-	let (w, chans) = line_world(s.ct, s.nodes, &s.async_from_start);
+	let (w, chans) = if s.name.contains("diamond") { diamond_world(s.ct) } else { line_world(s.ct, s.nodes, &s.async_from_start) };
 	let infos = chan_infos(&w, &chans);
 	let po = PersistOrderOracle::new(&w, infos.clone());
 	let rev = RevocationOracle::new(&w, infos.clone());
@@ -288,6 +301,37 @@ pub fn scenarios(tier: Tier, which: &str) -> Vec<LineScn> {
 				on_chain: true,
 				slow_user: vec![],
 			});
+		}
+		if which == "C03" && (th || ct == Ct::Static) {
+			// a two-part payment over A-B-D and A-C-D while A's monitor writes may be asynchronous and either
+			// first-hop peer may be away when the payment is sent; D times the incomplete payment out
+			for async_a in [false, true] {
+				for away in [None, Some(1usize), Some(2usize)] {
+					let mut ops = Vec::new();
+					if async_a {
+						ops.push(Op::SetAsync { node: 0 });
+					}
+					if let Some(p) = away {
+						ops.push(Op::DropLink { a: 0, b: p });
+					}
+					ops.push(Op::SendMultiPath { from: 0, paths: vec![(vec![(1, 0), (3, 2)], 30_000_000), (vec![(2, 1), (3, 3)], 20_000_000)], policy: ClaimPolicy::Claim });
+					ops.push(Op::Ticks { node: 3, n: 3 });
+					v.push(LineScn {
+						name: format!("{}-diamond-mpp-async{}-away{}", n, async_a as u8, away.map(|x| x.to_string()).unwrap_or("none".into())),
+						ct,
+						nodes: 4,
+						ops,
+						ops_first: true,
+						dev: Deviations { reorder: Some(1), early_op: None, complete_reorder: Some(1), ..Deviations::default() },
+						k: 1,
+						crash_nodes: vec![],
+						async_from_start: vec![],
+						max_disconnects: 0,
+						on_chain: false,
+						slow_user: vec![],
+					});
+				}
+			}
 		}
 		if which == "C03" {
 			// a second send with the same payment id at every point while the first is pending
